@@ -15,7 +15,8 @@ CLAIMS = {
              'reach a normal return; that Matrix._solver checks finiteness and a recomputed residual before returning a computed vector; that backend failures '
              'surface as MatrixError, lenient/step handlers are exact and bounded; that Matrix.solve stores only lhs[~J]=constrain[~J] / lhs[J]+=...; that backend '
              'solvers are reached only through the gate. These are necessary conditions of "certified solution or raise", quantified over all inputs because they '
-             'are path properties of the source; convergence, conditioning and independence of the initial guess are NOT decided. Also decided: sub-matrix/preconditioner caches are keyed on everything they depend on, Topology.project never overwrites prescribed constraint values, and in every iteration-method class the residual norm handed to System.solve is that of a residual assembled at the state handed out with it (typestate over enumerated paths; linear-model norms only behind the is_linear refusal).',
+             'are path properties of the source; convergence, conditioning and independence of the initial guess are NOT decided. Also decided: sub-matrix/preconditioner caches are keyed on everything they depend on, Topology.project never overwrites prescribed constraint values, and in every iteration-method class the residual norm handed to System.solve is that of a residual assembled at the state handed out with it (typestate over enumerated paths; linear-model norms only behind the is_linear refusal).'
+             ' Also decided (round 3): System.deconstruct stores the VALUES of a float constraint into the argument (R14.10); no solver front end writes into an array the caller passed, including what deconstruct hands back (R14.9 = R03.7).',
         note='Trusts: CPython ast; name-based identification of residual norms as the operands compared with tol/atol; IEEE semantics of NaN comparisons; '
              'the three gates are the only functions that hand an iterate to the user (confirmed by reading; R14.5 guards the linear side).',
         design='DESIGN.md section 2, C14'),
@@ -25,7 +26,8 @@ CLAIMS = {
              'denote exactly one matrix (incl. 0 <= colidx < ncols and strictly increasing columns per row), that all constructors and pickling go through it, that the numpy/scipy/mkl '
              'backends agree on assemble(data,rowptr,colidx,ncols) and on the export contract and that every consumer unpacks it in that order, constructor arities, the derived operators '
              'and caches of the base class, and the one-based index discipline of the MKL backend (which cannot be executed in this sandbox). Necessary conditions of "faithful to the data / '
-             'ambiguous input rejected"; numerical agreement of products, transposes and sub-matrices is NOT decided. Also decided: NumpyMatrix.__matmul__ contracts the first operand axis for operands of any dimension, and COO row compression computes index differences in a signed type so that unsorted or out-of-range rows are rejected for every integer dtype; assemble_block_csr establishes the per-block obligations (row pointers from 0 to len(values), column indices inside the block) before it re-bases and splices the blocks.',
+             'ambiguous input rejected"; numerical agreement of products, transposes and sub-matrices is NOT decided. Also decided: NumpyMatrix.__matmul__ contracts the first operand axis for operands of any dimension, and COO row compression computes index differences in a signed type so that unsorted or out-of-range rows are rejected for every integer dtype; assemble_block_csr establishes the per-block obligations (row pointers from 0 to len(values), column indices inside the block) before it re-bases and splices the blocks.'
+             ' Also decided (round 3): compress_indices (CSR row pointers) never returns on counts/end points of the row indices alone (R15.11).',
         note='Trusts: CPython ast; the idiom table for guards (all(e), numpy.all(e), e.all(); shifted-slice and numpy.diff adjacent comparisons); role names of index arrays '
              '(colidx/indices/cols vs rowptr/indptr). Unclassifiable constructs in the anchor give ANALYSIS-ERROR.',
         design='DESIGN.md section 2, C15'),
@@ -34,7 +36,8 @@ CLAIMS = {
         text='Decides the specification handling behind replace/linearize/derivative: every name in the anchored mechanisms resolves; all documented spellings are accepted; on every enumerated path '
              'to the yield of _argument_to_array the key type, membership, shape and dtype were verified by ValueError guards (or the replacement is built from the key); run-time ingestion emits '
              'a casting-checked conversion to the declared kind + a shape test; the raw specification is consumed only through the parser; announced argument tables are computed from the parsed pairs. Monomial._derivative (the derivative of factored polynomials) scatters through the row-major flat index of the argument\'s multi-index (symbolic execution for 1..4 axes). These are necessary for "all spellings '
-             'equivalent, wrong shape/dtype rejected"; that replace/linearize/factor commute with evaluation numerically is NOT decided.',
+             'equivalent, wrong shape/dtype rejected"; that replace/linearize/factor commute with evaluation numerically is NOT decided.'
+             ' Also decided (round 3): factor() prunes coefficients only where they are exactly zero (R13.8).',
         note='Trusts: CPython ast/symtable; the parameter and local names of _argument_to_array as read today (the rule re-derives them from the signature and the yield).',
         design='DESIGN.md section 2, C13'),
     'C17': dict(
@@ -52,7 +55,8 @@ CLAIMS = {
              'exception: r+b open, exclusive lock on that handle before any load/dump/seek and around the computation; truncated entries are survived and lead to recomputation; seek(0) between a failed '
              'load and the rewrite; never a rewrite or recomputation after a hit; computation inside disable() with a recorded log that is stored and replayed; exceptions propagate without a store; the '
              'entry name depends on module, qualname, version and every canonical argument; recursion bookkeeping (monotone exhausted flag, trimmed history, resume index, stop marker, layout agreement). '
-             'This is the shape that crash tolerance and mutual exclusion need for every history; what the OS guarantees for flock and partial writes and equality of unpickled values are NOT decided. Also decided: every iteration-method class that can be passed to the memoised System.solve is hashable and its hash covers its constructor state.',
+             'This is the shape that crash tolerance and mutual exclusion need for every history; what the OS guarantees for flock and partial writes and equality of unpickled values are NOT decided. Also decided: every iteration-method class that can be passed to the memoised System.solve is hashable and its hash covers its constructor state.'
+             ' Also decided (round 3): the end of a recursion is StopIteration, never a value it may yield (R18.9); class keywords (version) are handed on by the metaclass (R18.10); handles opened outside a with statement take part in the lock typestate.',
         note='Trusts: CPython ast; that a truncated pickle raises EOFError or UnpicklingError (CPython behaviour); flock semantics.',
         design='DESIGN.md section 2, C18'),
     'C20': dict(
@@ -87,7 +91,8 @@ CLAIMS = {
         text='PARTIAL. Decides protocol conformance of the rewrite system only: every override and every dynamic call site of the swap-rule protocol declared in evaluable.Array (and of _simplified, _derivative, '
              '_compile_with_out, ...) agrees in arity with the declaration, no _take/_takediag/_inflate rule hands its own axis parameters to the user-facing helper of the same name (different axis convention), and the '
              'fixed-point driver keeps its shape/dtype assertion, loop detection and memoisation. A mismatch is an exception or a transposed result the moment that pair of node kinds meets at depth >= 3, so the clauses are '
-             'necessary; termination and value preservation of the ~20 rules per class are NOT decided - no static argument in reach bounds the values over the unbounded term algebra. Also decided (R01.5): binary swap rules that merge two nodes equate the control operand they keep (Choose.index, Inflate.dofmap, LoopSum.index) and a foreign operand enters a loop body only if it is independent of that loop index (capture avoidance); (R01.6) the iszero/isunit guards of rewrite rules test operands that simplification can decide (a guard over `a % b` is dead because Mod never folds constants). Also: independence tests that license moving parts out of a loop are universal; rewrites fire on certain, not merely possible, equality of run-time lengths; the integer ranges that license integer rewrites are sound for the elementary and index-producing nodes (= C06 R06.4).',
+             'necessary; termination and value preservation of the ~20 rules per class are NOT decided - no static argument in reach bounds the values over the unbounded term algebra. Also decided (R01.5): binary swap rules that merge two nodes equate the control operand they keep (Choose.index, Inflate.dofmap, LoopSum.index) and a foreign operand enters a loop body only if it is independent of that loop index (capture avoidance); (R01.6) the iszero/isunit guards of rewrite rules test operands that simplification can decide (a guard over `a % b` is dead because Mod never folds constants). Also: independence tests that license moving parts out of a loop are universal; rewrites fire on certain, not merely possible, equality of run-time lengths; the integer ranges that license integer rewrites are sound for the elementary and index-producing nodes (= C06 R06.4).'
+             ' Also decided (round 3): a Zeros shortcut for a reduction whose neutral element is 1 (product, determinant) decides the empty axis first (R01.9).',
         note='Trusts: CPython ast; name-based MRO of the class model; the table of public-vs-protocol helper pairs confirmed by reading.',
         design='DESIGN.md section 2, C01'),
     'C04': dict(
@@ -95,7 +100,8 @@ CLAIMS = {
         text='PARTIAL. Decides the derivative tables: each Pointwise.deriv entry equals, in polynomial normal form, the textbook partial derivative of the NumPy function the class emits (and the class emits the function its '
              'name promises); the einsum patterns and signs of Multiply, Power, Inverse, Determinant, Product, Legendre, TransformCoords, Polyval and the chain rule equal the matrix-calculus patterns up to renaming; zero '
              'rules, memo and shape assertion of the driver; linear structural nodes act on the right axis of the derivative. A wrong table entry is a wrong Jacobian for every input, also where the suite\'s symmetric test '
-             'matrices hide it; chain-rule plumbing through loops/Custom/user operations and numerical accuracy are NOT decided. Terms of one product/power rule must be summed in one expression per branch, and derivatives accumulated over arguments must be added, not overwritten; Monomial._derivative scatters through the row-major flat index (symbolic execution). The derivative memo is only handed on by _derivative rules with their own target.',
+             'matrices hide it; chain-rule plumbing through loops/Custom/user operations and numerical accuracy are NOT decided. Terms of one product/power rule must be summed in one expression per branch, and derivatives accumulated over arguments must be added, not overwritten; Monomial._derivative scatters through the row-major flat index (symbolic execution). The derivative memo is only handed on by _derivative rules with their own target.'
+             ' Also decided (round 3): only boolean/integer data are treated as non-differentiable (R04.8); a derivative rule with several operands sums all contributions on every returning branch, licensed special cases tabled (R04.9); operands of the tabled einsum terms are compared by what they denote, not by the name of a local.',
         note='Trusts: CPython ast; oracles/calculus.json (textbook calculus); the normal-form algebra is one-sided: an unforeseen but correct spelling (a trig identity) would be reported, accepted alternatives are listed in the oracle.',
         design='DESIGN.md section 2, C04'),
     'C02': dict(
@@ -104,7 +110,8 @@ CLAIMS = {
              'mode may be assign; the in-place protocol of another node is entered only through the builder whose escape test keeps dependents/block-order/NotImplemented in order with the copy/iadd fallback; every '
              'expression/statement class of the printer covers all its fields (variables, printing, emptiness, rerun filter) and parenthesises operands; every compiled field is an announced dependency; '
              '_compile_expression arities match. Each clause is necessary for a faithful translation of every DAG shape (a missing zero fill survives the suite because numpy.empty often returns zero pages); that loop '
-             'grouping, block ids, Assemble index transposition and the numpy-specific rewrites compute the right values is NOT decided. Further clauses: every Array-typed constructor field is an announced dependency; dependency edges are recorded before the compiled-cache lookup; shared allocation/lock pairing under parallel compilation; loop nodes decline in-place compilation when the destination is defined later; einsum labels and axis positions are kind-typed and never mixed in the fusion rules. A possibly-assign mode is never forwarded to one term while others are accumulated into the same destination without a zero fill; the constant-cache protocol (first_run dispatch) is checked as in C03.',
+             'grouping, block ids, Assemble index transposition and the numpy-specific rewrites compute the right values is NOT decided. Further clauses: every Array-typed constructor field is an announced dependency; dependency edges are recorded before the compiled-cache lookup; shared allocation/lock pairing under parallel compilation; loop nodes decline in-place compilation when the destination is defined later; einsum labels and axis positions are kind-typed and never mixed in the fusion rules. A possibly-assign mode is never forwarded to one term while others are accumulated into the same destination without a zero fill; the constant-cache protocol (first_run dispatch) is checked as in C03.'
+             ' Also decided (round 3): the block a statement is emitted into is the body of the innermost `with lock` of the shared arrays it mentions (R02.12 = R16.3).',
         note='Trusts: CPython ast; the table of owned-storage constructors and view constructors (transpose = full cover, einsum diagonal = partial, slices = loop partition) confirmed by reading.',
         design='DESIGN.md section 2, C02'),
     'C03': dict(
@@ -112,7 +119,8 @@ CLAIMS = {
         text='PARTIAL. Decides the hidden-state protocols: no emitted in-place write can reach an argument, constant or cached value and the rerun filter reaches every nested statement; the constant-intermediate cache '
              'collects exactly the argument-free Array nodes, freezes them read-only, declares them global with first_run, filters the rerun body before the freeze and clears first_run last; isconstant/arguments '
              'overrides are conservative; arguments are ingested by asarray with a shape test; solver.System memo slots hold a matrix only under is_constant_matrix. Violating any of them makes a later call depend on an '
-             'earlier one for some call sequence; aliasing of returned arrays through zero-stride views and the memo tables of function.Basis are NOT decided. R03.6 (cached intermediates must be read-only before a view of them can exist) is violated on the pinned commit and reported as known finding F12. R03.7: the solver front ends never store into arrays taken from arguments/constrain (ownership typestate per path); R03.8: the buffer-keyed memo keys arrays by address, strides, shape and element type.',
+             'earlier one for some call sequence; aliasing of returned arrays through zero-stride views and the memo tables of function.Basis are NOT decided. R03.6 (cached intermediates must be read-only before a view of them can exist) is violated on the pinned commit and reported as known finding F12. R03.7: the solver front ends never store into arrays taken from arguments/constrain (ownership typestate per path); R03.8: the buffer-keyed memo keys arrays by address, strides, shape and element type.'
+             ' Also decided (round 3): cached members of the shared Points singletons hand out frozen arrays and Constant.value is a view, not a copy, of the immutable storage (R03.9); the caller-array typestate follows what System.deconstruct hands back (interprocedural summaries, containers).',
         note='Trusts: CPython ast; NumPy semantics of setflags(write=False) and asarray.',
         design='DESIGN.md section 2, C03'),
     'C06': dict(
@@ -128,7 +136,8 @@ CLAIMS = {
         text='PARTIAL (narrow). Decides that the final merge of the sparse form takes indices and inverse from one unique(..., return_inverse=True) over all parts, unravels the returned indices from that unique flat index with '
              'the same lengths (reversed) that flattened them, inflates the values over that inverse, that unique() wires sorter/mask/inverse consistently, and that the CSR tuple order (values, rowptr, colidx, ncols) agrees '
              'between evaluable.as_csr, matrix.assemble_csr/assemble_block_csr and function.as_csr. These are what make index tuples unique, sorted and decodable; the index arithmetic of each _assparse override, which is '
-             'where values and positions are computed, is NOT decided, except: the flattening and unravel loops of Array.assparse are executed symbolically (row-major, mutually inverse for 1..4 axes), and two clauses added after seeds: the stride vector of Inflate._assparse is row-major (symbolic evaluation), and Multiply._assparse keeps its factor clusters axis-disjoint. _assparse gathers the chunks of every occurrence of the operands (multiset).',
+             'where values and positions are computed, is NOT decided, except: the flattening and unravel loops of Array.assparse are executed symbolically (row-major, mutually inverse for 1..4 axes), and two clauses added after seeds: the stride vector of Inflate._assparse is row-major (symbolic evaluation), and Multiply._assparse keeps its factor clusters axis-disjoint. _assparse gathers the chunks of every occurrence of the operands (multiset).'
+             ' Also decided (round 3): compress_indices never returns on counts/end points alone (R05.9), numpy.bincount with weights is reached for floating point data only (R05.10), every path with parts to merge passes through the unique() merge (R05.1).',
         note='Trusts: CPython ast; anchored on the current shape of Array.assparse (ANALYSIS-ERROR if refactored beyond recognition).',
         design='DESIGN.md section 2, C05'),
     'C07': dict(
@@ -136,7 +145,8 @@ CLAIMS = {
         text='PARTIAL. Decides dispatch-table agreement for the 42 table-shaped of 81 NumPy registrations: the chain numpy.f -> function-level implementation -> evaluable wrapper/constructor -> emitted NumPy expression has, '
              'as a normal form over the operands (separately for complex operands where the wrapper branches on dtype), the meaning NumPy documents for f; min_dtype/force_dtype realise NumPy\'s result kind class; comparisons '
              'reject complex, logical operations decline non-booleans; the NEP-13/18 hooks consult the table; operators come from NumPy\'s mixin. A wrong table entry is wrong at every point of every sample; broadcasting, '
-             'indexing, reshape, einsum, linear algebra and lowering with point axes (the composite implementations) are NOT decided. Also decided: linear-algebra wrappers announce an inexact kind; the dispatch layer never writes into caller-owned arrays; slice bounds are normalised with Python semantics in both layers; dot, matmul and vdot compare the operand shapes before their broadcasting product; every _Transpose is constructed from normalised, permutation-checked axes; shape preconditions that a wrapped evaluable node only asserts (det, inv, eig, eigh, searchsorted) are tested by the wrapping implementation; interp compares the lengths of xp and fp; the subscript loop is checked for joint treatment of index arrays (known finding F20: it applies them one by one); element kinds that a wrapped node only asserts (choose selector, index arrays, det/inv operands) are tested first; NumPy\'s boolean special cases (absolute, contractions, mask subscripts) are honoured. dot, matmul and vdot contract the axis carrying the contracted length of both operands and return NumPy\'s shape for 20 operand-dimension cases (labelled-shape interpretation); transpose, swapaxes, sum, prod, any, all, trace, diagonal and stack deliver NumPy\'s result shape for the 24 oracle calls, and _Transpose.to_end/from_end keep their contract for every axis list of up to four axes (bounded interpretation); build-time divisions by axis lengths exclude zero first.',
+             'indexing, reshape, einsum, linear algebra and lowering with point axes (the composite implementations) are NOT decided. Also decided: linear-algebra wrappers announce an inexact kind; the dispatch layer never writes into caller-owned arrays; slice bounds are normalised with Python semantics in both layers; dot, matmul and vdot compare the operand shapes before their broadcasting product; every _Transpose is constructed from normalised, permutation-checked axes; shape preconditions that a wrapped evaluable node only asserts (det, inv, eig, eigh, searchsorted) are tested by the wrapping implementation; interp compares the lengths of xp and fp; the subscript loop is checked for joint treatment of index arrays (known finding F20: it applies them one by one); element kinds that a wrapped node only asserts (choose selector, index arrays, det/inv operands) are tested first; NumPy\'s boolean special cases (absolute, contractions, mask subscripts) are honoured. dot, matmul and vdot contract the axis carrying the contracted length of both operands and return NumPy\'s shape for 20 operand-dimension cases (labelled-shape interpretation); transpose, swapaxes, sum, prod, any, all, trace, diagonal and stack deliver NumPy\'s result shape for the 24 oracle calls, and _Transpose.to_end/from_end keep their contract for every axis list of up to four axes (bounded interpretation); build-time divisions by axis lengths exclude zero first.'
+             ' Also decided (round 3): numpy.stack compares member shapes and does not broadcast (R07.7), diagonal/trace/moveaxis keep the order of their axis arguments (R07.8), the Zeros shortcut of Product answers 1 over an empty axis (R07.16).',
         note='Trusts: CPython ast; oracles/numpy_api.json (documented NumPy semantics and result kinds); the normal-form algebra (one-sided: unforeseen correct spellings would be reported).',
         design='DESIGN.md section 2, C07'),
     'C09': dict(
@@ -144,7 +154,8 @@ CLAIMS = {
         text='PARTIAL (narrow). Decides that all members of the product sample decompose the element index with the same divisor and stride points by the same factor, that all members of the union sample split and shift by '
              'the first part\'s element/point counts, that _Integral.lower takes weights, lower args and the reduction from one loop index and contracts weights with the integrand over the point axes, and that every concrete '
              'sample either implements the four accessors or integrates by delegation. Disagreement between siblings makes integrate != sum(w f) for nested samples; Gauss tables, exactness degrees, point containment and '
-             'trimmed mosaics are numerical tables and are NOT decided. Also decided: a composite sample never hands its raw element index to a component accessor, and transformed points scale weights by the absolute determinant. TensorPoints enumerates coordinates, weights and triangulation with the same slow factor; getpoints changes the requested degree only under the bezier scheme test.',
+             'trimmed mosaics are numerical tables and are NOT decided. Also decided: a composite sample never hands its raw element index to a component accessor, and transformed points scale weights by the absolute determinant. TensorPoints enumerates coordinates, weights and triangulation with the same slow factor; getpoints changes the requested degree only under the bezier scheme test.'
+             ' Also decided (round 3): take_elements and _offsets never return on counts alone (R09.8); a per-direction degree tuple is reduced to a total degree by its sum (R09.6).',
         note='Trusts: CPython ast; the member names of sample._Mul/_Add/_Integral as read today.',
         design='DESIGN.md section 2, C09'),
 }
@@ -175,7 +186,9 @@ def main():
             'replay_cmd_template': f'{PY} {pid} --replay {{path}}',
             'engine': 'sa',
             'level_claimed': {'category': 'other', 'text': c['text'], 'design_ref': c['design']},
-            'level_note': c['note'],
+            'level_note': c['note'] + ' An obligation counts as violated only if it fails on the source as written and on its behaviour-preserving normal forms '
+                          '(sa/normalize.py: single-assignment locals substituted under stated purity/ordering conditions, small private helpers expanded), so that naming a subexpression '
+                          'or extracting a helper is not an alarm; the assumptions of those rewritings are listed in DESIGN.md 7.7.',
             'technique': c['technique'],
         })
     claimed = {c['property_id'] for c in checks}
@@ -196,7 +209,8 @@ def main():
             'add_only': True,
         },
         'engines': [{'name': 'sa', 'path': '/verif/sa', 'serves_properties': sorted(claimed),
-                     'kind_free_text': 'repository-specific static analysis on the Python AST: source model with MRO, symtable scopes, structural flag-sensitive path enumeration, abstract test evaluation, order closure; rules in /verif/rules'}],
+                     'kind_free_text': 'repository-specific static analysis on the Python AST: source model with MRO, symtable scopes, structural flag-sensitive path enumeration, abstract test evaluation, order closure, '
+                                       'behaviour-preserving normal forms (sa/normalize.py), propositional guard equivalence (sa/boolnf.py), metavariable patterns over resolved expressions (sa/pattern.py); rules in /verif/rules'}],
         'checks': checks,
         'not_applicable': na,
         'notes': 'All checks are static (ast/symtable over the working tree of /repo); exit 2 + ANALYSIS-ERROR means the machinery could not decide (anchor moved). '
